@@ -155,6 +155,9 @@ func zzMakeVisitor(form int, policy map[int]int, rec *[]zzEv, recParams *[]Visit
 			return ActionNoChange, nil
 		}
 	}
+	if form == 4 {
+		form = 2
+	}
 	switch form {
 	case 0:
 		return &VisitorOptions{Enter: mk(false), Leave: mk(true)}
@@ -162,6 +165,12 @@ func zzMakeVisitor(form int, policy map[int]int, rec *[]zzEv, recParams *[]Visit
 		m := map[string]NamedVisitFuncs{}
 		for _, k := range zzAllKinds {
 			m[k] = NamedVisitFuncs{Enter: mk(false), Leave: mk(true)}
+		}
+		return &VisitorOptions{KindFuncMap: m}
+	case 3: // the kind-specific shorthand for enter together with a leave function
+		m := map[string]NamedVisitFuncs{}
+		for _, k := range zzAllKinds {
+			m[k] = NamedVisitFuncs{Kind: mk(false), Leave: mk(true)}
 		}
 		return &VisitorOptions{KindFuncMap: m}
 	default:
@@ -236,7 +245,7 @@ func ZZ_C14_visit() {
 	}
 	ref := &zzRefWalker{policy: policy}
 	ref.walk(doc, nil, nil, nil)
-	form := zzChoice("form", 3)
+	form := zzChoice("form", 4)
 	var got []zzEv
 	var params []VisitFuncParams
 	Visit(doc, zzMakeVisitor(form, policy, &got, &params), nil)
@@ -273,7 +282,7 @@ func ZZ_C14_parallel() {
 	var g1, g2 []zzEv
 	var q1, q2 []VisitFuncParams
 	v1 := zzMakeVisitor(0, p1, &g1, &q1)
-	v2 := zzMakeVisitor(0, p2, &g2, &q2)
+	v2 := zzMakeVisitor(3, p2, &g2, &q2) // the second visitor in the kind-specific form
 	Visit(doc, VisitInParallel(v1, v2), nil)
 	zzCheckAgainst(r1, g1, q1, "parallel visitor 1")
 	zzCheckAgainst(r2, g2, q2, "parallel visitor 2")
@@ -303,7 +312,7 @@ func ZZ_C14_keymaps() {
 	}
 	doc := zzParseDoc(zzDocs[di])
 	order := zzChoice("order", 2)
-	form := zzChoice("form", 3)
+	form := zzChoice("form", 4)
 	for round := 0; round < 3; round++ {
 		var keys KeyMap
 		if (round+order)%2 == 0 {
